@@ -119,8 +119,15 @@ class SimFile:
     def closed(self):
         return self._f.closed
 
+    def _maybe_stall(self):
+        f = self._seam._match("read", self._rel)
+        if f is not None and f.kind == "stall" and self._seam.sim is not None:
+            self._seam.count("stalled_reader")
+            self._seam.sim.sleep(f.cut or 1.0)
+
     def read(self, *a):
         self._seam._yield("read")
+        self._maybe_stall()
         return self._f.read(*a)
 
     def readline(self, *a):
@@ -132,6 +139,7 @@ class SimFile:
 
     def readinto(self, b):
         self._seam._yield("read")
+        self._maybe_stall()
         return self._f.readinto(b)
 
     def _check_dead(self):
